@@ -222,7 +222,12 @@ func (e *Engine) dischargeAll(obs []*Oblig) {
 		go func(o *Oblig) {
 			defer wg.Done()
 			defer func() { <-sem }()
-			o.Res, o.File = discharge(o.Script, e.outDir, o.Name(), e.timeoutS, e.race)
+			if o.ExpectFail {
+				// vacuity / canary checks only need "not provably unsat": one solver, short budget
+				o.Res, o.File = dischargeOne(o.Script, e.outDir, o.Name(), 3)
+			} else {
+				o.Res, o.File = discharge(o.Script, e.outDir, o.Name(), e.timeoutS, e.race)
+			}
 		}(o)
 	}
 	wg.Wait()
